@@ -3,6 +3,13 @@ package main
 // Per-property driver configuration. rule/assumptions go verbatim into the
 // evidence file; the counts next to them are measured by the test processes.
 var props = map[string]propCfg{
+	"C09": {
+		rule: "generator bodies from a grammar with yield / yield* (to generators, to instrumented iterators with or without return/throw, to arrays) in statement, operand, call-argument, computed-key, destructuring-default, for-head, switch, conditional and template positions, inside try/catch/finally and loops, with closures over locals read after resumption, driven by histories of up to 6 next(v)/throw(e)/return(v) calls; one quarter of the bodies are async functions with await in place of yield (awaiting values, promises, rejected promises and thenables). Oracle 1: records, thrown values and the side-effect log equal the generator state machine / promise job queue of refjs. Oracle 2 (metamorphic, no interpreter): the same history issued from call depth 1..20 gives the same observation. Non-trivial = the history contains a throw()/return() call or the body is async; distinct = FNV-64 of the printed source and depth",
+		assumptions: []string{
+			"refjs is the trusted definitional interpreter for oracle 1; oracle 2 compares goja with itself",
+			"inside finally blocks only plain yields are generated and throw() is not issued after return(): generator restrictions for two known findings (kept visible by the C02 probes)",
+		},
+	},
 	"C08": {
 		rule: "function bodies from a control-flow grammar (nesting <= 5): try/catch/finally in its three shapes with and without (destructuring) catch parameters, for-of over instrumented iterators (plain, without return(), next() throwing, next() returning a non-object, return() throwing or returning a non-object) and over generators, the other four loop kinds, labelled loops and blocks, switch, with, array destructuring/spread/Array.from over the same iterators; break/continue (labelled and not), return and throw are placed at random statement positions incl. inside catch and finally; every try body, catch, finally, loop body and iterator method logs an event. Oracle 1 (no interpreter): per run the try/finally events obey LIFO bracket discipline with every pending finally run exactly once, each iterator receives return() at most once, never after next() reported done or threw, exactly once when it was left before exhaustion, each started generator runs its finally exactly once. Oracle 2: the whole trace, completion value and exception equal refjs. Non-trivial = the trace contains a finally and an iterator close, or two finally blocks; distinct = FNV-64 of the printed source",
 		assumptions: []string{
